@@ -13,6 +13,7 @@ import z3
 
 Z3_TIMEOUT_MS = int(os.environ.get("PYVC_Z3_TIMEOUT_MS", "10000"))
 CVC5_TIMEOUT_S = int(os.environ.get("PYVC_CVC5_TIMEOUT_S", "20"))
+RETRY_FACTOR = int(os.environ.get("PYVC_Z3_RETRY_FACTOR", "12"))
 CVC5 = "/usr/bin/cvc5"
 
 STATS = {"z3_calls": 0, "z3_time": 0.0, "cvc5_calls": 0, "cvc5_time": 0.0,
@@ -80,6 +81,24 @@ def check(solver, *extra, use_cvc5=True):
         v = _cvc5_check(solver, extra)
         if v != "unknown":
             return v, None, "cvc5"
+    else:
+        return "unknown", None, "z3"
+    # last resort: the same query once more in a fresh z3 with a long budget (verdicts must not
+    # flip to undecided just because all cores are busy)
+    t0 = time.time()
+    s2 = z3.Solver()
+    s2.set("timeout", Z3_TIMEOUT_MS * RETRY_FACTOR)
+    s2.set("random_seed", 7)
+    for a in solver.assertions():
+        s2.add(a)
+    r = s2.check(*extra)
+    STATS["z3_calls"] += 1
+    STATS["z3_time"] += time.time() - t0
+    STATS["z3_retries"] = STATS.get("z3_retries", 0) + 1
+    if r == z3.sat:
+        return "sat", s2.model(), "z3-retry"
+    if r == z3.unsat:
+        return "unsat", None, "z3-retry"
     return "unknown", None, "z3"
 
 
